@@ -31,6 +31,25 @@ def norm_msg(line):
     return s[:90]
 
 
+def error_context(text):
+    """the generated function the first error sits in, with digits and hash suffixes abstracted"""
+    last = ""
+    for line in text.splitlines():
+        m = re.search(r"In (?:member )?function [‘'](.+?)[’']:", line)
+        if m:
+            last = m.group(1)
+        if "error:" in line:
+            break
+    m = re.search(r"(Dtool_\w+|_in[CP]\w+)\(", last)
+    if not m:
+        return ""
+    name = m.group(1)
+    if name.startswith("_in"):
+        return ""
+    name = re.sub(r"\d+", "N", name)
+    return name[:40]
+
+
 def error_classes(text, limit=4):
     out = []
     for line in text.splitlines():
@@ -69,7 +88,7 @@ def make_lib(case, d):
         # cannot resolve it at import, which is a missing dependency, not a generator defect -> no strings there
         nostr = "-python-native" in case["opts"] and "-string" not in case["opts"]
         lib = libgen.generate(rng, "liba", size=case.get("size", 1.0), strings=not nostr,
-                              oddities=case.get("oddities", False))
+                              oddities="nofwd" if case.get("oddities") else False)
     lib.write(d)
     return lib
 
@@ -93,7 +112,11 @@ def attempt(b, d, opts, stage_limit="import"):
     o1 = os.path.join(d, "igate.o")
     rc = genbuild.compile_obj(b, p["oc"], o1, dirs=dirs, python=python)
     if rc.rc != 0:
-        return "compile-error", error_classes(rc.err) or ["?"], rc.err[:3000]
+        ec = error_classes(rc.err) or ["?"]
+        cx = error_context(rc.err)
+        if cx:
+            ec[0] = ec[0] + " @" + cx
+        return "compile-error", ec, rc.err[:3000]
     objs.append(o1)
     o2 = os.path.join(d, "lib.o")
     if not os.path.exists(o2):
@@ -183,8 +206,8 @@ def run_case(ctx, case):
         # minimise the option set: drop options while the same stage/class persists
         cur = list(opts)
         for o in list(opts):
-            if o in BACKENDS:
-                continue
+            if o in BACKENDS or (o == "-string" and "-python-native" in cur):
+                continue     # (python-native libraries use std::string, which needs -string)
             trial = [x for x in cur if x != o]
             st2, cl2, _ = attempt(b, d, trial)
             if st2 == stage and cl2 and cl2[0] == classes[0]:
